@@ -52,7 +52,7 @@ func init() {
 			checkC19Containers(c, budget(c.Tier, 200, 2000))
 		}}
 	props["C02"] = propRun{
-		rule: "(a) option tokens in all spellings over ASCII / multi-byte / invalid names and arbitrary values through the splitting functions; (b) metamorphic groups: one generated declaration and surrounding argument vector, one occurrence of one option rendered as -xV, -x=V, -x V, --name=V, --name V and quoted forms; (c) cluster groups -abc [V] / -a -b -c [V] / -ab -c [V] with non-ASCII flags; (d) random whole-parser cases with 40% non-ASCII names; distinct per token / group",
+		rule: "(a) option tokens in all spellings over ASCII / multi-byte / invalid names and arbitrary values through the splitting functions; (b) metamorphic groups: one generated declaration and surrounding argument vector, one occurrence of one option rendered as -xV, -x=V, -x V, --name=V, --name V and quoted forms; (c) cluster groups -abc [V] / -a -b -c [V] / -ab -c [V] with non-ASCII flags; (d) random whole-parser cases with 40% non-ASCII names; (e) library only: the spellings of an option of a bool-KINDED named type with its own conversion (scalar / pointer; it takes an argument although its kind is bool); distinct per token / group",
 		run: func(c *Ctx) {
 			c.N = budget(c.Tier, 3000, 200000)
 			checkC02Split(c)
@@ -61,6 +61,7 @@ func init() {
 			p.Utf = 0.3
 			checkC02Spellings(c, budget(c.Tier, 500, 20000), p)
 			checkC02Clusters(c, budget(c.Tier, 200, 15000), p)
+			checkC02Exotic(c, budget(c.Tier, 100, 2000))
 			pp := defaultProfile
 			pp.Utf = 0.4
 			pp.BadDecl = 0.01
@@ -141,9 +142,10 @@ func init() {
 	}, oracleNoPanic, oracleContained)
 	{
 		base := props["C04"]
-		props["C04"] = propRun{rule: base.rule + "; typed stage: every documented cause of a rejection (unknown option long / short / in a cluster, missing or option-looking argument, argument for a flag, unconvertible / out-of-range / badly quoted value from the command line, the environment or a default tag, non-choice, required option, missing and unknown command, help, refusing callback) produced on purpose, with and without PrintErrors: the documented Type, and the text written exactly once to the right stream or not at all", run: func(c *Ctx) {
+		props["C04"] = propRun{rule: base.rule + "; typed stage: every documented cause of a rejection (unknown option long / short / in a cluster, missing or option-looking argument, argument for a flag, unconvertible / out-of-range / badly quoted value from the command line, the environment or a default tag, non-choice, required option, missing and unknown command, help, refusing callback) produced on purpose, with and without PrintErrors: the documented Type, and the text written exactly once to the right stream or not at all; callback-types stage (library only): callbacks declared to return *flags.Error, a pointer to an error type of the program, error, int or nothing, reached from the command line or a default tag, accepting their value (nil): success, never a panic", run: func(c *Ctx) {
 			base.run(c)
 			checkC04Typed(c, budget(c.Tier, 800, 30000))
+			checkC04CallbackTypes(c, budget(c.Tier, 200, 4000))
 		}}
 	}
 	parseProp("C06", caseRule+"emphasis: required options at every level and positional count constraints", 2500, 100000, func(p *Profile) {
